@@ -19,7 +19,7 @@ fn run_one(run: &Value) -> Vec<Value> {
     let mut out = Vec::new();
     let role = cfg.get("role").and_then(Value::as_str).unwrap_or("server").to_string();
     let ver = cfg.get("ver").and_then(Value::as_i64).unwrap_or(5);
-    out.push(json!({"e":"reset","k":format!("{role}{ver}"),"s":0,"id":0,"q":0,"r":0,"n":id,"x":""}));
+    out.push(json!({"e":"reset","k":format!("{role}{ver}"),"s":0,"id":0,"q":ver,"r":0,"n":id,"x":role}));
     if let Some(obj) = cfg.as_object() {
         for (k, v) in obj {
             if let Some(n) = v.as_i64() {
